@@ -64,6 +64,8 @@ func leafTyFor(o *Op, mask Ty) Ty {
 		return firstTy(mask, TI)
 	case "concat", "catasg":
 		return firstTy(mask, TS)
+	case "land", "lor", "not", "tern":
+		return firstTy(mask, TB)
 	}
 	return firstTy(mask)
 }
